@@ -39,6 +39,12 @@ Theorem C10_report_complete_sound : forall sys bs (e : err),
 Proof. exact report_complete_sound. Qed.
 Print Assumptions C10_report_complete_sound.
 
+(* ... and it is in the report exactly once (block ids are the distinct keys of seq.block_events), so
+   the report as a multiset is the set of violated clauses *)
+Theorem C10_report_no_dup : forall sys bs, NoDup (map b_id bs) -> NoDup (check_timing sys bs).
+Proof. exact report_no_dup. Qed.
+Print Assumptions C10_report_no_dup.
+
 (* empty report iff every clause holds *)
 Theorem C10_check_ok_iff : forall sys bs,
   check_timing sys bs = [] <-> TimingValid raster_on_stored sys bs.
